@@ -124,8 +124,15 @@ impl FolderMerge for Folder {
                             if let FolderMergeOptions::Search(
                                 folder_id,
                                 index,
-                            ) = &options
+                            ) = &mut options
                             {
+                                // Events are merged in timestamp order so
+                                // with clock skew an update of this secret
+                                // may already have been applied; the vault
+                                // entry is overwritten so the document must
+                                // be replaced too
+                                index.remove(folder_id, id);
+
                                 Some(
                                     index.prepare(
                                         folder_id, id, &meta, &secret,
